@@ -6,7 +6,8 @@ generated program go through LOG, so that an observation is (outcome, LOG, post-
 import functools
 import sys
 
-__all__ = ['SINK', 'deco', 'LOG', 't', 'CM', 'O', 'E1', 'E2', 'E3', 'tryin', 'fin', 'ext1', 'ext2', 'partial', 'nc', 'PROP']
+__all__ = ['SINK', 'deco', 'LOG', 't', 'CM', 'O', 'E1', 'E2', 'E3', 'tryin', 'fin', 'ext1', 'ext2', 'partial', 'nc', 'PROP',
+           'reg', 'rcall']
 
 LOG = []
 PROP = ('PROPAGATING',)
@@ -36,6 +37,20 @@ def ext2(x, y=3, *, k=0):
 
 
 partial = functools.partial
+
+_REG = []
+
+
+def reg(f):
+  """Stores a callable handed over by the program (a function object that escapes to "another object")."""
+  LOG.append(('reg', len(_REG)))
+  _REG.append(f)
+
+
+def rcall(x):
+  """Calls the callable stored last by reg()."""
+  LOG.append(('rcall', repr(x)))
+  return _REG[-1](x)
 
 
 class _Sink(object):
@@ -81,6 +96,7 @@ def fin(k):
 
 def reset():
   del LOG[:]
+  del _REG[:]
   _TRYSTACK.clear()
 
 
@@ -121,6 +137,7 @@ class O(object):
     self.x = 1
     self.y = 2
     self.n = None
+    self.v = [0, 0]
 
   def m(self, v):
     LOG.append(('m', repr(v)))
